@@ -137,6 +137,7 @@ func init() {
 			})
 		partIDGenerator(c, a)
 		partAllocStorms(c, a)
+		partStoreStress(c, a) // concurrent registration of type names (ids and names one-to-one)
 		return a.finish(c)
 	}
 }
